@@ -73,7 +73,9 @@ def pred_1d(case):
     kind = case["kind"]
     with crash_is_violation("C08:build", "building space / interpolator"):
         basis = bspl.make_basis(space)
-        interp = SplineInterpolator1D(basis, dtype=complex) if kind == "complex" else SplineInterpolator1D(basis)
+        # the ways a caller spells "complex" that the constructor accepts (builtin, dtype object of the data)
+        cdt = [complex, np.dtype(np.complex128), np.zeros(1, dtype=complex).dtype][(len(space["breaks"]) + p) % 3]
+        interp = SplineInterpolator1D(basis, dtype=cdt) if kind == "complex" else SplineInterpolator1D(basis)
     ref = bspl.Ref(space, basis)
     path = "cu" if basis.cubic_uniform else "nu"
     tag = "%s:%s" % (path, "periodic" if per else "clamped")
